@@ -142,6 +142,205 @@ Proof.
   destruct W as [A B C]. constructor; auto.
 Qed.
 
+(* ====================================================================== *)
+(* [vext a b]: everything present in description a is still there, unchanged, in b; b may have
+   more keys and longer lists (context types may differ) *)
+Inductive vext : val -> val -> Prop :=
+| vext_refl v : vext v v
+| vext_list l l' : lext l l' -> vext (VL l) (VL l')
+| vext_dict ty ty' f f' :
+    (forall t v, alookup t f = Some v -> exists v', alookup t f' = Some v' /\ vext v v') ->
+    vext (VC ty f) (VC ty' f')
+with lext : list val -> list val -> Prop :=
+| lext_nil l' : lext [] l'
+| lext_cons a b l l' : vext a b -> lext l l' -> lext (a :: l) (b :: l').
+
+Lemma lext_app l x : lext l (l ++ x).
+Proof. induction l; simpl; constructor; auto. apply vext_refl. Qed.
+
+Lemma lext_map (g h : val -> val) l : (forall y, vext (g y) (h y)) -> lext (map g l) (map h l).
+Proof. intros H. induction l; simpl; constructor; auto. Qed.
+
+Lemma alookup_plug x t f : alookup t (plug x f) = option_map (plug1 x) (alookup t f).
+Proof. unfold plug. induction f as [|[k y] f IH]; simpl; auto. destruct (k =? t); auto. Qed.
+
+Lemma vext_plug1 a b x : vext a b -> vext (plug1 a x) (plug1 b x).
+Proof.
+  intros H. destruct x; simpl; try apply vext_refl; auto.
+  apply vext_list. apply lext_map. intros y. destruct y; try apply vext_refl; auto.
+Qed.
+
+Lemma vext_plug a b ty f : vext a b -> vext (VC ty (plug a f)) (VC ty (plug b f)).
+Proof.
+  intros H. apply vext_dict. intros t v E. rewrite alookup_plug in *.
+  destruct (alookup t f) as [y|]; simpl in *; [|discriminate]. inv E.
+  eexists. split; [reflexivity|]. apply vext_plug1; auto.
+Qed.
+
+Lemma root_with_ext stack : forall a b, vext a b -> vext (root_with stack a) (root_with stack b).
+Proof.
+  induction stack as [|fr stack IH]; simpl; intros a b H; auto.
+  apply IH. apply vext_plug; auto.
+Qed.
+
+(* ---- the deserialiser's invariant: a target is in the context iff it has been accessed; a declared
+   list has exactly as many elements as have been written ---- *)
+Definition dinv_c (f : fields) (ixs : indices) : Prop :=
+  forall t, (alookup t ixs = None -> alookup t f = None) /\
+            (forall i, alookup t ixs = Some (Nxt i) -> exists l, alookup t f = Some (VL l) /\ length l = i).
+Definition dinv_frame (fr : frame) : Prop := forall x, dinv_c (plug x (fr_f fr)) (fr_ix fr).
+Record dinv (s : st) : Prop := mkdinv {
+  dinv_cur : dinv_c (c_f s) (c_ix s);
+  dinv_stk : Forall dinv_frame (stk s) }.
+
+(* under the invariant a write creates a fresh key or appends to a list -- it never replaces *)
+Lemma set_value_fresh t v s s' : dinv_c (c_f s) (c_ix s) -> set_value t v s = Ok s' ->
+  (alookup t (c_ix s) = None /\ alookup t (c_f s) = None /\
+     s' = set_fix s (aupd t v (c_f s)) (aupd t Used (c_ix s))) \/
+  (exists l, alookup t (c_ix s) = Some (Nxt (length l)) /\ alookup t (c_f s) = Some (VL l) /\
+     s' = set_fix s (aupd t (VL (l ++ [v])) (c_f s)) (aupd t (Nxt (S (length l))) (c_ix s))).
+Proof.
+  intros I H. apply set_value_spec in H. destruct (I t) as [I1 I2].
+  destruct H as [[E ->] | (i & l & l2 & E & F & Hl & ->)].
+  - left. auto.
+  - right. destruct (I2 _ E) as (l0 & F0 & Hlen). rewrite F in F0. inv F0.
+    destruct Hl as [[_ ->] | [Hlt _]]; [|lia]. exists l0. auto.
+Qed.
+
+Lemma dinv_c_fresh t v f ixs : dinv_c f ixs -> dinv_c (aupd t v f) (aupd t Used ixs).
+Proof.
+  intros I t'. rewrite !alookup_dec. destruct (t' =? t); [split; [discriminate|intros; discriminate]|apply I].
+Qed.
+Lemma dinv_c_list t l n f ixs : dinv_c f ixs -> length l = n -> dinv_c (aupd t (VL l) f) (aupd t (Nxt n) ixs).
+Proof.
+  intros I Hl t'. rewrite !alookup_dec. destruct (t' =? t); [|apply I].
+  split; [discriminate|]. intros i E. inv E. eauto.
+Qed.
+
+(* fields after a fresh write extend the fields before *)
+Lemma fext_fresh t v f : alookup t f = None ->
+  forall t' x, alookup t' f = Some x -> exists x', alookup t' (aupd t v f) = Some x' /\ vext x x'.
+Proof.
+  intros F t' x E. rewrite alookup_dec. destruct (t' =? t) eqn:Et.
+  - apply Z.eqb_eq in Et. subst. congruence.
+  - eexists. split; eauto. apply vext_refl.
+Qed.
+Lemma fext_append t l v f : alookup t f = Some (VL l) ->
+  forall t' x, alookup t' f = Some x -> exists x', alookup t' (aupd t (VL (l ++ [v])) f) = Some x' /\ vext x x'.
+Proof.
+  intros F t' x E. rewrite alookup_dec. destruct (t' =? t) eqn:Et.
+  - apply Z.eqb_eq in Et. subst. rewrite F in E. inv E. eexists. split; eauto.
+    apply vext_list. apply lext_app.
+  - eexists. split; eauto. apply vext_refl.
+Qed.
+
+(* one write: invariant kept, the root description extended *)
+Lemma set_value_ext t v s s' : dinv s -> set_value t v s = Ok s' ->
+  dinv s' /\ vext (root s) (root s').
+Proof.
+  intros [Ic Is] H. destruct (set_value_fresh _ _ _ _ Ic H) as [(E & F & ->) | (l & E & F & ->)].
+  - split. { constructor; simpl; auto. apply dinv_c_fresh; auto. }
+    unfold root. simpl. apply root_with_ext. apply vext_dict. apply fext_fresh; auto.
+  - split. { constructor; simpl; auto. apply dinv_c_list; auto. apply len_snoc. }
+    unfold root. simpl. apply root_with_ext. apply vext_dict. apply fext_append; auto.
+Qed.
+
+Lemma dinv_set_io s w : dinv s -> dinv (set_io s w).
+Proof. intros [A B]. constructor; auto. Qed.
+
+Lemma des_prim_ext k t s v s' : dinv s -> des_prim k t s = Ok (v, s') ->
+  dinv s' /\ vext (root s) (root s').
+Proof.
+  intros I H. unfold des_prim in H. apply rbind_ok in H. destruct H as ([v1 r1] & _ & H).
+  apply rbind_ok in H. destruct H as (s1 & H2 & H). inv H.
+  apply (set_value_ext t v (set_io s r1)); auto. apply dinv_set_io; auto.
+Qed.
+
+Lemma declare_list_ext t s s' : dinv s -> declare_list t s = Ok s' -> dinv s' /\ vext (root s) (root s').
+Proof.
+  intros [Ic Is] H. unfold declare_list in H. destruct (alookup t (c_ix s)) eqn:E; [discriminate|].
+  destruct (Ic t) as [I1 _]. rewrite (I1 E) in H. inv H. split.
+  - constructor; simpl; auto. apply dinv_c_list; auto.
+  - unfold root. simpl. apply root_with_ext. apply vext_dict. apply fext_fresh; auto.
+Qed.
+
+(* subcontext_enter in a deserialiser always creates the nested dictionary *)
+Lemma enter_ext t s s' : dinv s -> wf s -> subcontext_enter t s = Ok s' ->
+  dinv s' /\ vext (root s) (root s').
+Proof.
+  intros [Ic Is] W H. pose proof (wf_nh _ W) as Nf.
+  unfold subcontext_enter in H. apply rbind_ok in H. destruct H as ([[v lc] s1] & H1 & H).
+  destruct (Ic t) as [I1 I2]. apply setdefault_spec in H1.
+  destruct H1 as [(E & -> & [[F _] | (F & -> & ->)]) | (i & l & E & F & -> & [(-> & -> & ->) | (N & _)])].
+  - rewrite (I1 E) in F. discriminate.
+  - inv H. simpl.
+    assert (Hp : forall x, plug x (aupd t VHole (aupd t (VC 0 []) (c_f s))) = aupd t x (c_f s)).
+    { intros x. rewrite aupd_aupd, plug_aupd, plug_nohole by auto. reflexivity. }
+    split.
+    + constructor; simpl. { intros t'. split; [reflexivity|intros; discriminate]. }
+      constructor; auto. intros x. simpl. rewrite Hp. apply dinv_c_fresh; auto.
+    + unfold root. simpl. rewrite Hp. apply root_with_ext. apply vext_dict. apply fext_fresh; auto.
+  - inv H. simpl. rewrite alookup_aupd_same, aupd_aupd, list_set_app_last.
+    assert (Nl : Forall nohole l) by (apply nohole_VL; exact (nohole_f_lookup _ _ _ Nf F)).
+    assert (Hp : forall x, plug x (aupd t (VL (l ++ [VHole])) (c_f s)) = aupd t (VL (l ++ [x])) (c_f s)).
+    { intros x. rewrite plug_aupd, plug_nohole by auto. cbn [plug1].
+      rewrite map_app, map_hole_id by auto. reflexivity. }
+    split.
+    + constructor; simpl. { intros t'. split; [reflexivity|intros; discriminate]. }
+      constructor; auto. intros x. simpl. rewrite Hp. apply dinv_c_list; auto. apply len_snoc.
+    + unfold root. simpl. rewrite Hp. apply root_with_ext. apply vext_dict. apply fext_append; auto.
+  - destruct (I2 _ E) as (l0 & F0 & Hlen). rewrite F in F0. inv F0.
+    assert (length l0 < length l0)%nat by (apply nth_error_Some; congruence). lia.
+Qed.
+
+Lemma leave_ext s s' : dinv s -> subcontext_leave s = Ok s' -> dinv s' /\ root s' = root s.
+Proof.
+  intros [Ic Is] H. unfold subcontext_leave in H. apply rbind_ok in H. destruct H as (u & _ & H).
+  destruct (stk s) as [|fr rest] eqn:Es; [discriminate|]. inv H. inv Is. split.
+  - constructor; simpl; auto.
+  - unfold root. rewrite Es. reflexivity.
+Qed.
+
+Theorem des_step_never_overwrites o s r s' :
+  dinv s -> wf s -> des_step o s = Ok (r, s') -> dinv s' /\ vext (root s) (root s').
+Proof.
+  intros I W H. unfold des_step in H.
+  destruct o; simpl in H; try (eapply des_prim_ext; eauto; fail).
+  - apply unitr_ok in H. destruct H as (v & H). eapply des_prim_ext; eauto.
+  - destruct (rem (sio s)); inv H. split; [apply dinv_set_io; auto|apply vext_refl].
+  - destruct (rem (sio s)); [|discriminate]. apply unitr_ok in H. destruct H as (v & H).
+    apply (des_prim_ext _ _ _ _ _ (dinv_set_io s _ I) H).
+  - apply unitst_ok in H. eapply declare_list_ext; eauto.
+  - apply unitst_ok in H. eapply enter_ext; eauto.
+  - apply unitst_ok in H. destruct (leave_ext _ _ I H) as [I' E]. split; auto. rewrite E. apply vext_refl.
+  - apply unitst_ok in H. rewrite set_context_type_wf in H by auto. inv H. destruct I as [Ic Is]. split.
+    + constructor; auto.
+    + unfold root. simpl. apply root_with_ext. apply vext_dict. intros t v E. eexists. split; eauto. apply vext_refl.
+  - apply unitst_ok in H. eapply set_value_ext; eauto.
+  - apply rbind_ok in H. destruct H as (b & _ & H). inv H. split; auto. apply vext_refl.
+Qed.
+
+(* whole runs: the root description only ever grows *)
+Inductive vexts : val -> val -> Prop :=
+| vexts_refl v : vexts v v
+| vexts_step a b c : vext a b -> vexts b c -> vexts a c.
+
+Theorem des_never_overwrites A (p : prog A) : prog_ok p ->
+  forall s a s', dinv s -> wf s -> run des_step p s = Ok (a, s') ->
+  dinv s' /\ vexts (root s) (root s').
+Proof.
+  induction 1 as [a0 | o k Hok Hk IH]; intros s a s' I W H; simpl in H.
+  - inv H. split; auto. apply vexts_refl.
+  - apply rbind_ok in H. destruct H as ([r s1] & Hs & Hr).
+    destruct (des_step_never_overwrites _ _ _ _ I W Hs) as [I1 E1].
+    assert (W1 : wf s1).
+    { eapply (step_wf des_prim); [|exact W|exact Hok|exact Hs]. intros; eapply des_prim_wf; eauto. }
+    destruct (IH r s1 a s' I1 W1 Hr) as [I' E']. split; auto. eapply vexts_step; eauto.
+Qed.
+
+Lemma init_dinv bs : dinv (init_st 0 [] bs).
+Proof. constructor; simpl; auto. intros t. split; [reflexivity|intros; discriminate]. Qed.
+
 
 (* ---- corollaries / packaging for Props/C21.v ---- *)
 Lemma set_value_reused : forall t v s,
